@@ -76,7 +76,9 @@ fn kind(c: &Cmd) -> &'static str {
 /// not — by signing repeatedly with the same / with different keys, with and without
 /// --ignore-threshold in between, for every kind of key file.
 const TEMPLATES_A: u64 = 96;
-const EDITS_AFTER_SIGN: u64 = 11;
+const EDITS_AFTER_SIGN: u64 = 12;
+/// index of a key file that does not exist
+const MISSING_KEY: usize = 99;
 const TEMPLATES_B: u64 = TEMPLATES_A + 4 * EDITS_AFTER_SIGN;
 /// third family: the same edits, first under a write fault (must fail and leave the file as it was),
 /// then for real
@@ -109,6 +111,8 @@ fn template_edit_after_sign(j: u64) -> Vec<Cmd> {
         7 => Cmd::SetVersion(7),
         8 => Cmd::BumpVersion,
         9 => Cmd::Expire("2031-05-05T05:05:05Z"),
+        // two key sources, the second cannot be loaded: the command fails and must not have written
+        10 => Cmd::AddKey { keys: vec![k3, MISSING_KEY], roles: vec![0] },
         // a true no-op (key and role already listed): the signatures may stay or go
         _ => Cmd::AddKey { keys: vec![k1], roles: vec![0] },
     });
